@@ -682,6 +682,7 @@ func C12(c *vf.Ctx) {
 	}
 	runSysFamily(c, fam, nT, nR)
 	serveTeardown(c)
+	serveModel(c)
 	// closing must also complete when the peer misbehaved: every Hostile.tla frame sequence, then end of stream
 	hostileManagerWith(c, func(frames []hostileFrame, where string) {
 		c.Violation("teardown does not complete after hostile peer input: "+where, map[string]any{"frames": frames, "bytes": hostileBytes(frames)})
